@@ -664,6 +664,77 @@ func c08Line(o c08Obs) (line, impl string) {
 	return
 }
 
+// c08H3Line renders an HTTP/3 script observation for the driver lane c08h3life (`Req/Pool/CancelH3.lean`):
+// the trace of model events / steps that leads to the injection point, and what was observed afterwards.
+// Only points the stream-level model speaks about: from the request head on, no retries, no
+// "Expect: 100-continue", no peer-side points (the client may not have processed them yet).
+func c08H3Line(o c08Obs) (line, impl string) {
+	sc := o.sc
+	if sc.proto != "h3" || !o.fired || o.hung || sc.maxRetries > 0 || sc.expect > 0 || sc.waitConn {
+		return "", ""
+	}
+	tr := []string{"ev:hsDone", "ev:streamOpen", "act:cSendHdr"}
+	chunks := func(n int) {
+		for i := 0; i < n; i++ {
+			tr = append(tr, "act:uRead", "ev:credit")
+		}
+	}
+	upDone := func() {
+		if sc.up > 0 {
+			chunks(sc.up)
+			tr = append(tr, "act:uEOF", "act:uClose", "act:uFin")
+		}
+	}
+	afterResp := false
+	nm := o.firedNm
+	switch {
+	case nm == "wroteHdr":
+	case strings.HasPrefix(nm, "wrote#"):
+		var i int
+		fmt.Sscanf(nm, "wrote#%d", &i)
+		chunks(i + 1)
+	case nm == "wroteLast":
+		upDone()
+	case nm == "gotHeaders" || strings.HasPrefix(nm, "gotBody#"):
+		upDone()
+		tr = append(tr, "ev:peerHeaders", "act:cRespOk")
+		afterResp = true
+	default:
+		return "", ""
+	}
+	want := o.kind
+	ret, read := o.res, "-"
+	if afterResp {
+		ret, read = "resp", o.res
+		if read == want {
+			read = "h3cancel" // (relabelled by net/http's cancelTimerBody under Client.Timeout: same meaning)
+		}
+	}
+	closes := 0
+	switch o.body {
+	case "none", "open":
+	case "closed1":
+		closes = 1
+	default:
+		fmt.Sscanf(o.body, "closed%d", &closes)
+	}
+	upl := "gone"
+	for _, g := range o.leak {
+		if strings.Contains(g, "sendRequestBody") {
+			upl = "parked"
+		}
+	}
+	hasBody := 0
+	if sc.up > 0 {
+		hasBody = 1
+	}
+	// rst (our send side reset) is not observed by the script peer; its request context ending = our
+	// receive side stopped
+	impl = fmt.Sprintf("ret=%s;read=%s;closes=%d;upl=%s;rst=?;stop=%s", ret, read, closes, upl, o.rst)
+	line = fmt.Sprintf("c08h3life %d %s %s %s", hasBody, strings.Join(tr, ","), want, impl)
+	return
+}
+
 func c08Scenarios(proto string) []c08Scenario {
 	iv := time.Duration(verifh.N(150, 300)) * time.Millisecond
 	l := []c08Scenario{
@@ -778,6 +849,12 @@ func c08ScriptLane(t *testing.T, proto string, lane string) {
 			human += " FAILED: " + strings.Join(failed, ", ")
 		}
 		s.Case(line, impl, ok, class, true, human)
+		if h3line, h3impl := c08H3Line(o); h3line != "" {
+			// the same observation seen by the HTTP/3 lifecycle model (program counters of caller,
+			// watcher and upload goroutine): the outcome must be one the model reaches
+			count("h3life")
+			s.Case(h3line, h3impl, ok, class, true, human)
+		}
 	}
 	for _, sc := range c08Scenarios(proto) {
 		if hung {
@@ -929,7 +1006,7 @@ func c08ScriptLane(t *testing.T, proto string, lane string) {
 	case "h2":
 		must = append(must, "point=hsDone", "rst-seen", "point=delivered")
 	case "h3":
-		must = append(must, "rst-seen")
+		must = append(must, "rst-seen", "h3life")
 	}
 	if hung {
 		must = nil // the lane stopped at the first call that never returned (reported above)
